@@ -200,10 +200,10 @@ def _cls(mapping):
     return classify
 
 PROPS["C02"] = dict(
-    level="proof", runner="C02", model_files=COMPILE_MODEL, proof_files=["Assets_proofs.v", "PlutusData_proofs.v", "Compile_proofs.v"],
+    level="proof", runner="C02", model_files=COMPILE_MODEL, proof_files=["Assets_proofs.v", "PlutusData_proofs.v", "Compile_proofs.v", "Compile_values.v"],
     check_files=["Compile_check.v"],
     theorems=["C02_u64_exact_or_error", "C02_u64_out_of_range_is_error", "C02_i64_exact_or_error", "C02_lovelace_exact_in_range",
-              "C02_native_exact_in_range", "C02_mint_exact_or_error", "C02_balance_equation", "C02_negative_lovelace_refuted", "C02_negative_native_refuted"],
+              "C02_native_exact_in_range", "C02_mint_exact_or_error", "C02_balance_equation", "C02_output_coin_is_exact_sum", "C02_output_coin_overflow_refused", "C02_negative_lovelace_refuted", "C02_negative_native_refuted"],
     partial=["the balance equation is a theorem about the multi-asset algebra (C02_balance_equation); that the compiled transaction of a whole balanced template carries those values is evaluated per case (clauses 101, 104)",
              "i128 overflow in asset arithmetic is an error since the repair 3481f18 and is modelled as such (Reduce.chk_assets, expr_assets_from)"],
     trusted_base=COMPILE_TB, assumptions=["28-byte policies; amounts are closed integer expressions"],
@@ -215,9 +215,10 @@ PROPS["C02"] = dict(
                  112: "a native asset entry denotes a negative or >= 2^63 amount and compilation succeeded"},
 )
 PROPS["C08"] = dict(
-    level="proof", runner="C08", model_files=COMPILE_MODEL, proof_files=["Compile_proofs.v", "Compile_sorted.v"], check_files=["Compile_check.v"],
-    theorems=["C08_sorted_inputs_perm", "C08_sorted_inputs_sorted", "C08_index_is_rank", "C08_index_points_at_item", "C08_order_strict_total"],
-    partial=["the end-to-end equality of the witness set's redeemer map with the specification-side map is checked per case (clause 201); the theorems cover the mechanism: the looked-up list is the sorted permutation of the body inputs and the index found is the item's rank in the ledger's order"],
+    level="proof", runner="C08", model_files=COMPILE_MODEL, proof_files=["Compile_proofs.v", "Compile_sorted.v", "Compile_redeemers.v"], check_files=["Compile_check.v"],
+    theorems=["C08_sorted_inputs_perm", "C08_sorted_inputs_sorted", "C08_index_is_rank", "C08_index_points_at_item", "C08_order_strict_total",
+              "C08_mint_redeemer_points_at_policy", "C08_mint_redeemer_needs_policy"],
+    partial=["the end-to-end equality of the witness set's redeemer map with the specification-side map is checked per case (clause 201); the theorems cover the mechanism: the looked-up list is the sorted permutation of the body inputs, the index found is the item's rank in the ledger's order, and a mint / burn redeemer carries the position of its own policy or the compilation fails"],
     trusted_base=COMPILE_TB, assumptions=["distinct reward accounts per withdrawal directive in generated cases"],
     keep_ids=_only(lambda i: i in (1, 2, 121, 122) or 200 <= i < 300),
     classify=_cls({121: "many_utxo_input_with_redeemer", 122: "shared_policy_different_redeemers"}),
@@ -239,9 +240,10 @@ PROPS["C10"] = dict(
                  313: "auxiliary data hash = digest of the auxiliary data", 314: "compiling twice gives identical bytes", 316: "script data hash = digest of redeemers + language view"},
 )
 PROPS["C14"] = dict(
-    level="proof", runner="C14", model_files=COMPILE_MODEL, proof_files=["Compile_proofs.v"], check_files=["Compile_check.v"],
-    theorems=["C14_hash_construction_total", "C14_number_conversions_total", "C14_int_arithmetic_total", "C14_utxo_refs_total"],
-    partial=["panic-freedom of the code is as strong as the correspondence: the model predicts Panic exactly where its own sites are; any other panic of the implementation is a disagreement (clause 1); stack exhaustion and panics inside dependencies can only be observed"],
+    level="proof", runner="C14", model_files=COMPILE_MODEL, proof_files=["Compile_proofs.v", "Compile_sorted.v", "NoPanic.v"], check_files=["Compile_check.v"],
+    theorems=["C14_hash_construction_total", "C14_number_conversions_total", "C14_int_arithmetic_total", "C14_utxo_refs_total",
+              "C14_compile_never_panics", "C14_reduce_never_panics", "C14_tx_reduce_never_panics", "C14_compiler_ops_never_panic", "C14_np_is_no_panic"],
+    partial=["the modelled back end (reduce, compiler ops, compile) is proved to have no reachable panic; that the code is the model is the per-case tie, so that every panic of the implementation on a generated case is a disagreement (clause 1 / id 140), and panics in the stages before compile and in resolve_tx are reported directly (id 147); stack exhaustion and panics inside dependencies can only be observed"],
     trusted_base=COMPILE_TB, assumptions=[],
     keep_ids=_only(lambda i: i in (1, 2) or 140 <= i < 150),
     check_names={140: "the implementation panicked where the model has no panic site", 141: "fixed-size hash from wrong-length bytes", 142: "textual utxo reference", 143: "missing script bytes", 144: "native script decode",
